@@ -127,7 +127,7 @@ func (l *queryLog) search(
 
 	total += bufLen
 
-	totalLimit := params.offset + params.limit
+	totalLimit := params.totalLimit()
 
 	// now let's get a unified collection
 	entries = append(memoryEntries, fileEntries...)
@@ -279,7 +279,7 @@ func (l *queryLog) searchFiles(
 		}
 	}()
 
-	totalLimit := params.offset + params.limit
+	totalLimit := params.totalLimit()
 	entries, oldestNano, total := l.readEntries(ctx, r, params, cache, totalLimit)
 	if oldestNano != 0 {
 		oldest = time.Unix(0, oldestNano)
